@@ -80,6 +80,16 @@ CHECKS = {
          "For 17 message and structure types, generated values (optionals present/absent, boundary integers, 0..4 name components, strings forcing 1-4 length octets, every flag bit) go gokrb5 Marshal -> gokrb5 Unmarshal (value equality) and gokrb5 Marshal -> reference strict decoder (tags, string types, optional presence, flag numbering, minimal lengths, no trailing bytes, same field values); reference-encoded bytes go gokrb5 Unmarshal -> Marshal (byte equality when no optional carries a zero value); the same after Ticket.DecryptEncPart, APReq.Verify, ASRep/TGSRep/KRBPriv decryption; length-octet helpers for all lengths (0..2^16 + 2^k+-1 quick, 0..2^24 thorough).",
          "Trusts ref/kmsg + ref/der (self-tested by decoding and byte-identically re-encoding 35 MIT vectors). Observe-only: optionals present with zero value, NegTokenResp without negState, EncTGSRepPart tag 26 re-encoding, decode-only/encode-only types.",
          "5.C13"),
+ "C11": ("Go race detector over shared-client workloads (virtual-clock bubbles and real-time trials) + KDC issue-log pairing + configuration snapshot + deadlock watchdog with goroutine dumps",
+         "exploration",
+         "The check binary is built with -race. One logged-in client and one Config are shared by 2-16 goroutines issuing a seeded mix of GetServiceTicket (hot/fresh SPNs), Login, AffirmLogin, GetCachedTicket, Print, Diagnostics, GetKDCs, ResolveRealm, SetSPNEGOHeader and Destroy against a simulated KDC with 1-3 configured KDCs: in testing/synctest bubbles (all goroutines and the renewal timer wake at the same virtual instants and then run in parallel) and in real-time trials with 3-4 s tickets (renewal, expiry, re-login and requests overlap). Race reports with a gokrb5 frame (parsed from GORACE logs, de-duplicated by access-site pair), returned (ticket,key) pairs not issued together, GetKDCs results that are not keys 1..n over exactly the configured servers, a changed Config snapshot and deadlocks (watchdog + two goroutine dumps 5 s apart with the same goroutines waiting for a lock or channel send in gokrb5) are violations.",
+         "Samples the schedules this machine produces; the evidence reports distinct interleaving signatures. Bubble trials use renewable tickets and no explicit logins (see DESIGN.md: a leaked renewal goroutine cannot be passed by a virtual clock once the client is destroyed); logins, re-logins and expiry under concurrency are covered by the real-time trials. Operation failures are observed, not judged.",
+         "5.C11"),
+ "C12": ("fault enumeration at simulated KDC endpoints: allowed-outcome set computed from the fault assignment",
+         "fault_enumeration",
+         "Every configured KDC is a loopback endpoint whose UDP side behaves as one of {answers, refuses, silent, KRB-ERROR, response-too-big, empty datagram} and whose TCP side as one of {answers, refuses, silent, KRB-ERROR, closes at once / inside the length prefix / inside the body}, crossed with udp_preference_limit in {1, smaller than the request, larger}: exhaustive for 1 KDC, exhaustive (thorough) or restricted to <= 1 silent side (quick) for 2 KDCs, seeded samples for 3 KDCs, plus a TGS sample. The result of Login/GetServiceTicket must lie in the set of outcomes the assignment permits (order-independent because the library randomises the KDC order) and the attempts seen by the endpoints must stay within 2 x transports x KDCs.",
+         "Trusts simkdc endpoints (private port pool so that a refusing side cannot be re-bound). Garbage (non-Kerberos) replies are not part of the statement and not enumerated.",
+         "5.C12"),
 }
 
 NOT_YET = "check not built yet in this revision of /verif (construction in progress, see DESIGN.md section 9)"
